@@ -14,15 +14,15 @@ LEVEL_TEXT = {
  'C07': "Metamorphic search over representation changes (ring start, direction, part/hole order, repeated vertices) and all four trait implementations.",
  'C08': "Metamorphic search over power-of-two scalings (bit-identical), integer translations of exact inputs (bit-identical) and the 7 non-identity axis symmetries (region).",
  'C09': "Metamorphic search: a far-away extra part on either operand in each of four directions, and forced switches between the bounding-box shortcut and the sweep path.",
- 'C10': "The oracles of C01, C02, C04, C05 and the algebraic laws re-run with f32 operands, plus coordinate-for-coordinate agreement of f32 and f64 results on inputs representable in both.",
+ 'C10': "The oracles of C01, C02, C04, C05 and one of C06-C09 re-run with the operation executed in f32, coordinate-for-coordinate agreement of f32 and f64 results on inputs representable in both, and the oracles of C16 (pairwise step) and C15 (orderings) instantiated at f32 on exact integer pairs, float pairs and nearly degenerate mixed-magnitude pairs.",
  'C11': "Triples of exact operands: all 16 operation pairs, both nesting sides, third operand independent or re-used, judged by the point-membership oracle on the joint arrangement; every intermediate result must pass the operand validity check.",
- 'C12': "Generated call histories (pool of operands, repeated and re-ordered calls, fresh threads, 8 concurrent threads) checked for bit-identical operands before/after and bit-identical results; thread schedules are sampled, not controlled.",
+ 'C12': "Generated call histories (pool of operands, repeated and re-ordered calls, fresh threads, the same call in f32 first, 8 concurrent threads) checked for bit-identical operands before/after and bit-identical results; the first cases of the process are recomputed at the very end of the run; thread schedules are sampled, not controlled.",
  'C13': "The public fill_queue/subdivide stages are run on generated operands and the resulting sub-segments are checked pairwise with exact predicates (links, order, planarity, coverage against an integer reference on exact families).",
  'C14': "Every processed sub-segment's flags are compared with exact point membership of side points in the input operands (in/out, other in/out, in-result, transition, twins, prev-in-result).",
- 'C15': "All pairs and triples of the events of generated inputs (before and after subdivision) and generated event stars are checked for strict-total-order laws and against a reference order built from exact orientation tests.",
+ 'C15': "All pairs and triples of the events of generated inputs (before and after subdivision), generated event stars, class-drawn integer segment pairs and nearly degenerate float segment pairs (incl. negative zero) are checked for strict-total-order laws and against a reference order built from exact orientation tests.",
  'C16': "All segment pairs on the 4x4 lattice (exhaustive), class-directed integer pairs below 2^25 and float pairs are passed to the public possible_intersection and judged on effects (pieces, split points, typing, links) against an exact classification and an i128 rational reference.",
- 'C17': "Exhaustive breadth-first exploration of every splay tree reachable over a small key universe plus long random operation histories, compared step by step with std BTreeMap; reference stability checked by address and value.",
- 'C18': "Generated scenarios (insertion order x size up to 3e6 keys x teardown/consumption action x 8 MiB / 2 MiB stack) and large Boolean operations with an early-stopped, heavily populated sweep line, each in a child process; stack exhaustion shows up as an abort of the child.",
+ 'C17': "Exhaustive breadth-first exploration of every splay tree reachable over a small key universe plus long random operation histories (run a second time with tagged keys that compare equal), compared step by step with std BTreeMap; reference stability checked by address and value; thorough tier adds a libFuzzer campaign (ASan).",
+ 'C18': "Generated scenarios (insertion order x size up to 3e6 keys x fold lookup x teardown/consumption action x 8 MiB / 2 MiB stack) and large Boolean operations with an early-stopped, heavily populated sweep line, each in a child process; stack exhaustion shows up as an abort of the child.",
 }
 TECH = {
  'C01': "property-based testing (proptest TestRunner, structured shrinking) + exhaustive small-grid enumeration against an exact even-odd membership oracle",
@@ -75,6 +75,7 @@ manifest = {
  },
  "engines": [
    {"name": "harness", "path": "/verif/harness", "serves_properties": sorted(IMPLEMENTED), "kind_free_text": "Rust crate: proptest 1.11 driven through TestRunner from a binary (fixed seeds from VERIF_SEED, 16 worker threads, shrinking to replay files), exhaustive enumerators, exact geometric oracles"},
+   {"name": "fuzz", "path": "/verif/fuzz", "serves_properties": ["C01","C02","C04","C05","C06","C07","C08","C09","C13","C14","C15","C16","C17"], "kind_free_text": "cargo-fuzz / libFuzzer targets fz_bool, fz_stage, fz_segpair, fz_splay (ASan; bytes decoded with arbitrary::Unstructured into the harness descriptors, oracle inside the target); run by the thorough tiers"},
  ],
  "checks": checks,
  "notes": "See DESIGN.md. Exit codes: 0 held, 1 VIOLATION (replay file written under /verif/replays), 2 inconclusive. Known findings: /verif/known_findings.json.",
